@@ -274,12 +274,20 @@ def run_frame_case(impl, case, out):
                 w.ws_send(s, '5')
                 w.run()
         nev = len(w.events)
+        if case.get('fail_close'):
+            s.fail_close = True       # the peer is gone by the time the server closes: writing the close frame fails
         w.ws_send(s, frame)
         w.run()
         if over and stage in ('probe', 'second'):
             # judge usability right away, before the (unanswered) heartbeat reaps the session
             w.run_until(w.now + 0.25)
         else:
+            if over:
+                # the oversize frame itself ends the session - not the heartbeat a few seconds later
+                w.run_until(w.now + 0.25)
+                if not session_dead(w, sid):
+                    V(out, impl, 'oversize_did_not_end_session', 'frame:' + stage,
+                      'a quarter second after the %d-long frame (limit %d) the session is still alive' % (n, L), case)
             w.run_until(w.now + HORIZON)
         msgs = [e for e in w.events[nev:] if e[0] == 'message']
         disc = [e for e in w.events if e[0] == 'disconnect']
@@ -372,6 +380,8 @@ def jobs_for(ctx):
                             if stage == 'ws_first' and poll:
                                 continue
                             jobs.append(('frame', impl, {'L': L, 'n': n, 'kind': kind, 'stage': stage, 'poll': poll}))
+                            if n > L and stage in ('ws_first', 'steady') and not poll:
+                                jobs.append(('frame', impl, {'L': L, 'n': n, 'kind': kind, 'stage': stage, 'poll': poll, 'fail_close': True}))
     return jobs
 
 
@@ -390,7 +400,7 @@ def run(ctx):
         'rule': 'limits %r; POST bodies of length {0,1,L-2..L+2,10L} x declared length {actual,actual+-1,L,L+1,0} x '
                 '{text, base64} x ASGI chunking {one, many}%s; 0..18 (and 40, 100) packets per body, plain and as d= form bodies (quote, quote_plus, raw separators); frames of length '
                 '{1,L-1,L,L+1,L+2,10L} x {text,binary} x stage {first frame of a ws-only session, probe frame, second '
-                'handshake frame, steady state} x pending poll; POSTs around the limit arriving while the session is in the middle of closing (disconnect handler suspended), and the reverse order (the POST first, then another POST / CLOSE / disconnect(sid) while its close is suspended); every case followed by %.0fs of virtual time and '
+                'handshake frame, steady state} x pending poll; POSTs around the limit arriving while the session is in the middle of closing (disconnect handler suspended), and the reverse order (the POST first, then another POST / CLOSE / disconnect(sid) while its close is suspended); oversize frames also with a peer that is gone when the server closes (writing the close frame fails); every case followed by %.0fs of virtual time and '
                 'liveness probes; both servers. All cases distinct.' % (LIMITS, '' if ctx.quick else ' x pending poll on/off', HORIZON),
         'samples': [jobs[0][2], jobs[len(jobs) // 2][2], jobs[-1][2]],
         'exhaustive': True,
